@@ -95,7 +95,7 @@ Lemma append_lookup opts order k :
   NoDup (okeys opts) -> alookup k (append_options opts order) = alookup k opts.
 Proof.
   intros Hn. unfold append_options.
-  destruct (take_ordered (order ++ [1; 33; 3]) opts) as [o rest] eqn:E.
+  destruct (take_ordered (insert_mask order ++ [1; 33; 3]) opts) as [o rest] eqn:E.
   apply (take_lookup _ _ _ _ k _ E). apply sort_lookup. apply (take_keys _ _ _ _ E Hn).
 Qed.
 
@@ -150,6 +150,12 @@ Qed.
 
 (* ---------------------------------------------------------------- *)
 (* mask before router, when the parameter request list does not name 3 before 1 *)
+
+Fixpoint before (a b : N) (l : list N) : bool :=   (* a occurs, and before any b *)
+  match l with
+  | [] => false
+  | x :: r => if x =? a then true else if x =? b then false else before a b r
+  end.
 
 Definition lt_pos (a b : option nat) : Prop :=
   match a, b with Some i, Some j => (i < j)%nat | _, _ => False end.
@@ -211,19 +217,28 @@ Proof.
       * apply (IH opts o rest L); auto.
 Qed.
 
-Lemma mask_first_reply c t m x b :
-  t <> RNak -> known_c12_prl m = false -> c12_mask_first (mk_reply c t m x b) = true.
+Lemma before_insert_mask l : before 3 1 (insert_mask l) = false.
 Proof.
-  intros Ht Hk. unfold c12_mask_first.
+  induction l as [|x r IH]; simpl; auto.
+  destruct (x =? 3) eqn:X3.
+  - reflexivity.
+  - simpl. rewrite X3. destruct (x =? 1); auto.
+Qed.
+
+Lemma mask_first_reply c t m x b :
+  t <> RNak -> c12_mask_first (mk_reply c t m x b) = true.
+Proof.
+  intros Ht. unfold c12_mask_first.
   assert (L : is_lease_reply (mk_reply c t m x b) = true) by (destruct t; auto; congruence).
   rewrite L. cbn [negb orb].
   set (tc := match t with ROffer => 2 | RAck => 5 | RNak => 6 end).
   assert (Ho : r_opts (mk_reply c t m x b) = append_options (lease_opts c b tc) (m_prl m))
     by (unfold mk_reply; destruct t; auto; congruence).
   rewrite Ho. unfold append_options.
-  destruct (take_ordered (m_prl m ++ [1; 33; 3]) (lease_opts c b tc)) as [o rest] eqn:E.
+  destruct (take_ordered (insert_mask (m_prl m) ++ [1; 33; 3]) (lease_opts c b tc)) as [o rest] eqn:E.
   assert (G : lt_pos (pos_of 1 (o ++ sort_opts rest)) (pos_of 3 (o ++ sort_opts rest))).
-  { apply (mask_gen (m_prl m) (lease_opts c b tc) o rest); auto.
+  { apply (mask_gen (insert_mask (m_prl m)) (lease_opts c b tc) o rest); auto.
+    - apply before_insert_mask.
     - unfold lease_opts, n_options. destruct b; simpl; discriminate.
     - unfold lease_opts, n_options. destruct b; simpl; discriminate.
     - apply sort_lookup. apply (take_keys _ _ _ _ E). apply lease_opts_nodup. }
@@ -261,11 +276,11 @@ Proof.
     cbv zeta in *. rewrite G1, G2, G3, G4, G5, G6, G7, G8, !N.eqb_refl. reflexivity.
 Qed.
 
-Theorem mask_first_partial : forall c h t m r,
+Theorem mask_first_all : forall c h t m r,
   In t (trace c (init c) h) -> op_msg (t_op t) = Some m -> t_reply t = Some r ->
-  known_c12_prl m = false -> c12_mask_first r = true.
+  c12_mask_first r = true.
 Proof.
-  intros c h t m r Hin Hm Hr Hk. destruct (trace_reply c h t r Hin Hr) as [_ [_ G]].
+  intros c h t m r Hin Hm Hr. destruct (trace_reply c h t r Hin Hr) as [_ [_ G]].
   apply good_cases in G as [m' [Hm' G]]. rewrite Hm in Hm'. inversion Hm'; subst m'.
   destruct G as [[x [E A]]|[E|[x [E [A _]]]]]; subst r.
   - apply mask_first_reply; auto. discriminate.
